@@ -2,7 +2,7 @@
 Round-trip equality over all values is a value-level statement; static analysis decides the agreement of
 the writer's and the reader's tables and the fit guards (necessary conditions), and says so."""
 import math
-import re
+import json, re
 from .. import common, roles, lemmas
 from ..roles import P_
 from ..mir import generic_path
@@ -390,7 +390,15 @@ def run(ctx):
     u_parsers = set(uint_text_wrappers(ctx))
     for p_ in sorted(u_parsers):
         t4.site("%s is Uint256's text parser (from_dec_str on its input, Ok exactly then)" % p_.split("::")[-1])
-    for name, tr_ in (("try_from", "convert::TryFrom"), ("from_str", "str::FromStr"), ("try_from", "convert::TryFrom")):
+    def _callee(p_, fr_):
+        # `input.parse::<Uint256>()` is `<Uint256 as FromStr>::from_str(input)`
+        if p_ and re.search(r"str::(<impl str>::)?parse$", p_) and U in json.dumps((fr_ or {}).get("args") or []):
+            return trait_fn(P, U, "str::FromStr", "from_str")
+        return (P.fn(p_) or P.fn(generic_path(p_))) if p_ else None
+    # two passes: first the entry points that parse with from_dec_str themselves, then those that hand their input to one
+    # of them (in either direction: try_from -> from_str or from_str -> try_from; a forwarder is never a target, so no cycle)
+    entry_points = []
+    for name, tr_ in (("from_str", "str::FromStr"), ("try_from", "convert::TryFrom")):
         f = trait_fn(P, U, tr_, name) or next((g for g in P.fns.values() if g.crate == "bignumber" and g.name == name and g.impl_self == U and g.body is not None and (g.impl_trait or "").endswith(tr_)), None)
         if f is None:
             continue
@@ -399,7 +407,10 @@ def run(ctx):
             if f.path not in u_parsers:
                 t4.site("Uint256::%s parses with U256::from_dec_str" % name)
             u_parsers.add(f.path)
-        elif not parses and any(p_ and (P.fn(p_) or P.fn(generic_path(p_))) is not None and (P.fn(p_) or P.fn(generic_path(p_))).path in u_parsers and
+        else:
+            entry_points.append((name, f, parses))
+    for name, f, parses in entry_points:
+        if not parses and any(p_ and _callee(p_, fr_) is not None and _callee(p_, fr_).path in u_parsers and
                                 set(ctx.roots(P.val_call(f, f.body, b_)[4][0])) == {P_(f, 0)} for b_, p_, fr_, t_ in P.calls(f)) and \
                 all(set(ctx.roots(v_, (("v", "Ok"), ("f", 0)))) <= {r_ for b_, p_, fr_, t_ in P.calls(f) for r_ in ctx.roots(P.val_call(f, f.body, b_), (("v", "Ok"), ("f", 0)))} | set()
                     for (b2_, i2_, cls_, v_) in common.ok_exit_blocks(P, f)):
